@@ -1,6 +1,7 @@
 import CookModel.Analysis.Collector
 import CookModel.Lemmas.Determinism
 import CookModel.Lemmas.DeterminismLocs
+import CookModel.Props.C16
 /-
   C18  Parsing is deterministic, stateless across calls and thread-safe.
 
@@ -229,5 +230,40 @@ theorem Instance.runReqs_env (i : Instance) (h : List Req) : (Instance.runReqs (
 theorem C18_history_independent_mixed (i : Instance) (h : List Req) (r : Req) :
     ((Instance.runReqs (α := α) i h).serve (α := α) r).2 = (({ i with tableBuilt := false } : Instance).serve (α := α) r).2 := by
   cases r <;> simp [Instance.serve, Instance.runReqs_env]
+
+/-! ### the unit index of a BUILT converter (wave 4: closes "Not closed" of notes/audit-C18.md as far as the model goes) -/
+
+open Bld in
+/-- The premise "keys unique" of `C18_unit_index_order_irrelevant` is a theorem for the index of EVERY converter the
+    builder makes (`C16_final_keys`: `add_unit` refuses a key that is already there, through SI expansion and extend
+    blocks too): so for every successfully built converter, every re-enumeration `idx'` of its unit index gives the same
+    parse result on every input. -/
+theorem C18_built_index_order_irrelevant (files : List (UnitsFile α)) (conv : Bld.Converter α) (h : build files = .ok conv)
+    (base : Env) (pqOf : Nat → Option Nat) (idx' : Index) (hp : conv.index.Perm idx') (input : Str) :
+    (conv.index.map (·.1)).Nodup ∧
+    parseRecipe (α := α) (envWithIndex base conv.index pqOf) input = parseRecipe (envWithIndex base idx' pqOf) input := by
+  have hn := (C16_final_keys files conv h).2.2.1
+  exact ⟨hn, C18_unit_index_order_irrelevant base pqOf conv.index idx' hp hn input⟩
+
+open Bld in
+/-- … in particular for the default converter: the index of the converter the builder model makes of the shipped units
+    file has every key once, and its keys are exactly the keys of the units of the generated `Converter.bundled`, which are
+    pairwise different (`C16_bundled_keys_unique`, an instance of the theorem about all built converters).  (The string
+    table `unitKeyTable` the differential driver decodes at run time is a third rendering of the same keys; that rendering
+    is compared with the Rust converter by the runs, not in Lean.) -/
+theorem C18_bundled_index_keys_unique :
+    ∃ conv : Bld.Converter Rat, bundled = .ok conv ∧ (conv.index.map (·.1)).Nodup ∧
+      ((Cook.Converter.bundled Rat).allUnits.flatMap (·.allKeys)).Nodup ∧
+      (conv.index.map (·.1)).Perm ((Cook.Converter.bundled Rat).allUnits.flatMap (·.allKeys)) ∧
+      ∀ (base : Env) (pqOf : Nat → Option Nat) (idx' : Index), conv.index.Perm idx' → ∀ input : Str,
+        parseRecipe (α := Rat) (envWithIndex base conv.index pqOf) input = parseRecipe (envWithIndex base idx' pqOf) input := by
+  obtain ⟨hall, _, conv, hb, hn, hperm⟩ := C16_bundled_keys_unique
+  exact ⟨conv, hb, hn, hall, hperm, fun base pqOf idx' hp input =>
+    C18_unit_index_order_irrelevant base pqOf conv.index idx' hp hn input⟩
+
+-- the hypotheses are satisfiable: the shipped file builds, and its index can be re-enumerated (reversed)
+example : ∃ conv : Bld.Converter Rat, Bld.bundled = .ok conv ∧ conv.index.Perm conv.index.reverse :=
+  let ⟨conv, hb, _⟩ := C18_bundled_index_keys_unique
+  ⟨conv, hb, (List.reverse_perm _).symm⟩
 
 end Cook
